@@ -71,6 +71,11 @@ pub struct LiveCase {
     /// blames a live thread.  Only combined with the kernel's auxv and without the descriptor churner.
     #[serde(default)]
     pub leader_exit: bool,
+    /// the far end of "any argv/environment content": the target is executed with a 64 MiB stack limit
+    /// and 0.2 / 2 (the dumper's own ARG_MAX) / 3 / 5 MiB of additional environment (even) or argument
+    /// (odd selector / 4) strings of up to 100 KiB each
+    #[serde(default)]
+    pub bulk: Option<u8>,
 }
 
 fn protection_of(p: u8) -> u32 {
@@ -108,6 +113,23 @@ pub fn check_live(c: &LiveCase) -> Verdict {
     let mut b = Builder::new();
     b.spec.argv = c.argv.clone();
     b.spec.env = c.env.clone();
+    if let Some(k) = c.bulk {
+        let total: usize = [200 << 10, (2 << 20) - 40_000 + 7919 * (k as usize >> 3), 3 << 20, 5 << 20][k as usize % 4];
+        let mut left = total;
+        let mut i = 0u64;
+        while left > 0 {
+            let n = left.min(100_000 - 997 * (i as usize % 7));
+            let v: Vec<u8> = (0..n as u64).map(|j| b'a' + ((j * 7 + i * 13) % 26) as u8).collect();
+            if (k >> 2) & 1 == 0 {
+                b.spec.env.push((format!("BULK{i}").into_bytes(), v));
+            } else {
+                b.spec.argv.push(v);
+            }
+            left -= n;
+            i += 1;
+        }
+        b.spec.exec_stack_mb = Some(64);
+    }
     for (res, soft) in &c.rlimits {
         // RLIMIT_CORE(4), RLIMIT_NOFILE(7), RLIMIT_STACK(3), RLIMIT_MEMLOCK(8)
         let r = [4, 7, 3, 8][*res as usize % 4];
@@ -316,6 +338,9 @@ pub fn check_live(c: &LiveCase) -> Verdict {
     }
     // linker debug stream
     let mut classes = vec![];
+    if let Some(k) = c.bulk {
+        classes.push(format!("bulk-{}:{}", if (k >> 2) & 1 == 0 { "environment" } else { "arguments" }, ["200KiB", "2MiB", "3MiB", "5MiB"][k as usize % 4]));
+    }
     match (&c.auxv, synth) {
         (AuxvMode::Synthetic(_), Some((_, _, exp))) => {
             if exp.well_formed {
@@ -382,7 +407,7 @@ pub fn live_strategy() -> impl Strategy<Value = LiveCase> {
         proptest::collection::vec((any::<u8>(), 0u8..8, any::<bool>()), 0..6),
         0u8..4,
         any::<bool>(),
-        (proptest::bool::weighted(0.3), proptest::bool::weighted(0.25)),
+        (proptest::bool::weighted(0.3), proptest::bool::weighted(0.25), proptest::option::weighted(0.05, any::<u8>())),
         prop_oneof![
             3 => Just(AuxvMode::Kernel),
             2 => Just(AuxvMode::TrueDirect),
@@ -390,7 +415,7 @@ pub fn live_strategy() -> impl Strategy<Value = LiveCase> {
             3 => valid_dso_strategy().prop_map(AuxvMode::Synthetic),
         ],
     )
-        .prop_map(|(argv, env, rlimits, fds, maps, parked, blamed_other, (fd_churn, leader_exit), auxv)| LiveCase { argv, env, rlimits, fds, maps, parked, blamed_other, auxv, fd_churn, leader_exit })
+        .prop_map(|(argv, env, rlimits, fds, maps, parked, blamed_other, (fd_churn, leader_exit, bulk), auxv)| LiveCase { argv, env, rlimits, fds, maps, parked, blamed_other, auxv, fd_churn, leader_exit, bulk })
 }
 
 pub fn run(ctx: &mut LaneCtx) {
@@ -399,7 +424,7 @@ pub fn run(ctx: &mut LaneCtx) {
         SubSpec {
             name: "live-os-streams",
             cases: (800, 25_000),
-            rule: "generated targets: argv 0..20 (empty, non-UTF-8, long), environment 0..50 variables, changed rlimits, 0..60 descriptors of 7 kinds, shared/private mappings of all permissions, blamed thread main/other, optionally a thread-group leader that has exited on its own (zombie leader, dump blamed on a live thread); auxv mode {kernel, true direct, direct with some values zero, direct values leading to a synthetic linker list in the target}; oracle as in assumptions; non-trivial = >=10 descriptors of >=3 kinds, or synthetic chain, or partially zero direct auxv; distinct = hash of case",
+            rule: "generated targets: argv 0..20 (empty, non-UTF-8, long), environment 0..50 variables (one case in twenty adds 0.2 / 2 / 3 / 5 MiB of environment or argument strings, the target being executed under a 64 MiB stack limit so that the kernel accepts them), changed rlimits, 0..60 descriptors of 7 kinds, shared/private mappings of all permissions, blamed thread main/other, optionally a thread-group leader that has exited on its own (zombie leader, dump blamed on a live thread); auxv mode {kernel, true direct, direct with some values zero, direct values leading to a synthetic linker list in the target}; oracle as in assumptions; non-trivial = >=10 descriptors of >=3 kinds, or synthetic chain, or partially zero direct auxv; distinct = hash of case",
             strategy: live_strategy().boxed(),
             max_shrink_iters: 150,
             log_current: true,
